@@ -34,9 +34,9 @@ package syntax
 //@   ensures result == charAt(l, idx)
 
 //@ method (*Lexer).Next
-//@   requires lexerWF(l) && l.cursor < len(l.Source)
+//@   requires lexerWF(l)
 //@   modifies l.cursor
-//@   ensures l.cursor == old(l.cursor) + 1 && result == charAt(l, l.cursor) && lexerWF(l)
+//@   ensures l.cursor == (old(l.cursor) < len(l.Source) ? old(l.cursor) + 1 : old(l.cursor)) && result == charAt(l, l.cursor) && lexerWF(l)
 
 //@ method (*Lexer).Peek
 //@   requires lexerWF(l)
@@ -162,3 +162,13 @@ package syntax
 //@   ensures result != nil ==> isSyntaxErrorAt(result, l)
 //@   loop 1 invariant lexerWF(l) && lastLineOK(l) && l.cursor >= old(l.cursor) && !l.beginLex && (l.Lines.base == old(l.Lines.base) || fresh(l.Lines))
 //@   loop 1 decreases len(l.Source) - l.cursor
+
+//@ pred inRunes(ch rune, list []rune) = exists i int :: 0 <= i && i < len(list) && list[i] == ch
+
+// inside a multi-line literal or comment the line just recorded starts one past the cursor
+//@ pred lastLineLoose(l *Lexer) =
+//@   len(l.Lines) > 0 ==> 0 <= l.Lines[len(l.Lines)-1].Indents && 0 <= l.Lines[len(l.Lines)-1].StartIdx &&
+//@     (l.IndentType == IndentSpace ==> l.Lines[len(l.Lines)-1].StartIdx + 4 * l.Lines[len(l.Lines)-1].Indents <= l.cursor + 1 &&
+//@                                        l.Lines[len(l.Lines)-1].StartIdx + 4 * l.Lines[len(l.Lines)-1].Indents <= len(l.Source)) &&
+//@     (l.IndentType != IndentSpace ==> l.Lines[len(l.Lines)-1].StartIdx + l.Lines[len(l.Lines)-1].Indents <= l.cursor + 1 &&
+//@                                        l.Lines[len(l.Lines)-1].StartIdx + l.Lines[len(l.Lines)-1].Indents <= len(l.Source))
